@@ -48,7 +48,7 @@ def nan_safe(ctx, rule='C19-R1'):
     # all-NaN early return dominates the derivation of the parameters
     q = f'{MOD}.apply_scaling'
     f = p.func(q, rule)
-    evs = fx.own_events(q)
+    evs = fx.deep_events(q)
     conv = [e for e in evs if e.kind == 'call' and call_head(e) == f'{MOD}.convert_kwargs']
     allnan = ('call', ('g', 'numpy.all'), (('call', ('g', 'numpy.isnan'), (V,), ()),), ())
     ok = bool(conv) and all(T.mk_not(allnan) in guard_literals(e.guard) for e in conv)
@@ -67,7 +67,7 @@ def nan_safe(ctx, rule='C19-R1'):
 
 def _exprs(fx, q, rule):
     """(do expression, undo expression, events) for a scaling routine."""
-    evs = fx.own_events(q)
+    evs = fx.deep_events(q)
     do = [e for e in evs if e.kind in ('return', 'store') and MODE_DO in guard_literals(e.guard)
           and not T.is_const(e.value)]
     undo = [e for e in evs if e.kind in ('return', 'store') and MODE_UNDO in guard_literals(e.guard)
@@ -125,8 +125,8 @@ def minrange(ctx, rule='C19-R4'):
     q = f'{MOD}.minrange2minmax'
     f = p.func(q, rule)
     ctx.saw(f)
-    evs = fx.own_events(q)
-    rets = [e for e in evs if e.kind == 'return']
+    evs = fx.deep_events(q)
+    rets = [e for e in evs if e.kind == 'return' and not e.ctx]
     mn = ('call', ('g', 'numpy.nanmin'), (V,), ())
     mx = ('call', ('g', 'numpy.nanmax'), (V,), ())
     mr = ('p', 'min_range')
